@@ -81,7 +81,10 @@ def build_app(spec, validator=None, record=None, returns=None):
         elif t['k'] == 'enum':
             env[t['name']] = Enum(*t['values'], type_name=t['name'])
         elif t['k'] == 'fault':
-            env[t['name']] = type(str(t['name']), (Fault,), {'__module__': 'c07app', '__type_name__': t['name']})
+            fd = {'__module__': 'c07app', '__type_name__': t['name']}
+            if t.get('ns'):
+                fd['__namespace__'] = spec['tns'] if t['ns'] == '#tns' else t['ns']         # a fault from a shared library namespace
+            env[t['name']] = type(str(t['name']), (Fault,), fd)
     services = []
     for s in spec['services']:
         d = {'__module__': 'c07app'}
@@ -424,6 +427,13 @@ def resolve_all(data):
                 check('binding', el, 'binding', bds)
         elif q.namespace in (NS_SOAP, NS_SOAP12) and q.localname == 'header':
             check('header-message', el, 'message', msgs)
+            r = res(el, el.get('message'))
+            if r is not None and r in msgs:
+                parts = [p.get('name') for m in root.findall(_q(NS_WSDL, 'message')) if m.get('name') == r[1]
+                         for p in m.findall(_q(NS_WSDL, 'part'))]
+                if el.get('part') not in parts:
+                    bad.append(('header-part', '%s#%s' % (el.get('message'), el.get('part')),
+                                'message {%s}%s has no part of that name' % r))
     return bad
 
 
@@ -546,14 +556,20 @@ def gen_spec(rng, idx):
         fields = [['m%d_%d' % (i, j), gen_T(rng, cnames, enames, 0, j > 0)] for j in range(rng.randrange(1, 5))]
         types.append({'k': 'complex', 'name': n, 'ns': rng.choice(nss + [None]) if nss else None, 'base': base, 'fields': fields})
         cnames.append(n)
-    for i in range(rng.randrange(0, 3)):
+    for i in range(rng.randrange(0, 4)):
         n = 'H%d' % i
         types.append({'k': 'complex', 'name': n, 'ns': rng.choice(nss + [None, None]) if nss else None, 'base': None,
                       'fields': [['tok', {'p': 'Unicode'}]] + ([['n', {'p': 'Integer'}]] if rng.random() < 0.5 else [])})
         hnames.append(n)
     for i in range(rng.randrange(0, 3)):
         n = 'F%d' % i
-        types.append({'k': 'fault', 'name': n})
+        ft = {'k': 'fault', 'name': n}
+        r = rng.random()
+        if r < 0.25:
+            ft['ns'] = rng.choice(nss + ['urn:c07:faultlib'])       # explicit namespace outside the tns
+        elif r < 0.4:
+            ft['ns'] = '#tns'                                        # explicit namespace equal to the tns
+        types.append(ft)
         fnames.append(n)
     services, fi = [], 0
     for si in range(rng.choice([1, 1, 1, 2, 2, 3, 4])):
@@ -561,9 +577,9 @@ def gen_spec(rng, idx):
         if rng.random() < 0.3:
             s['port_types'] = ['Pt%d_%d' % (si, j) for j in range(rng.choice([1, 1, 2, 3]))]
         if hnames and rng.random() < 0.3:
-            s['in_header'] = [rng.choice(hnames)]
-        if hnames and rng.random() < 0.15:
-            s['out_header'] = [rng.choice(hnames)]
+            s['in_header'] = rng.sample(hnames, rng.choice([1, 1, min(2, len(hnames)), len(hnames)]))
+        if hnames and rng.random() < 0.2:
+            s['out_header'] = rng.sample(hnames, rng.choice([1, 1, min(2, len(hnames)), len(hnames)]))
         for mi in range(rng.randrange(1, 5)):
             fn = 'f%d' % fi
             fi += 1
@@ -594,8 +610,8 @@ def gen_spec(rng, idx):
                 m['throws'] = rng.sample(fnames, rng.randrange(1, len(fnames) + 1))
             if hnames and rng.random() < 0.2:
                 m['in_header'] = rng.sample(hnames, rng.randrange(1, len(hnames) + 1))
-            if hnames and rng.random() < 0.1:
-                m['out_header'] = [rng.choice(hnames)]
+            if hnames and rng.random() < 0.2:
+                m['out_header'] = rng.sample(hnames, rng.randrange(1, len(hnames) + 1))
             if s.get('port_types'):
                 m['port_type'] = rng.choice(s['port_types'])
             s['methods'].append(m)
@@ -625,6 +641,17 @@ def boundary_specs():
     out.append({'id': 'b-headers-2', 'tns': 'tns.main', 'name': 'App',
                 'types': [hdr(None), {'k': 'complex', 'name': 'H2', 'ns': 'ns.h', 'fields': [['n', I]]}], 'services': [
         {'name': 'S', 'methods': [{'fn': 'f', 'params': [['a', U]], 'returns': U, 'in_header': ['H', 'H2'], 'out_header': ['H2']}]}]})
+    out.append({'id': 'b-out-headers-2', 'tns': 'tns.main', 'name': 'App',
+                'types': [hdr(None), {'k': 'complex', 'name': 'H2', 'ns': 'ns.h', 'fields': [['n', I]]},
+                          {'k': 'complex', 'name': 'H3', 'ns': None, 'fields': [['z', U]]}], 'services': [
+        {'name': 'S', 'methods': [{'fn': 'f', 'params': [['a', U]], 'returns': U, 'in_header': ['H'], 'out_header': ['H2', 'H3']},
+                                  {'fn': 'g', 'params': [['a', U]], 'returns': U, 'in_header': ['H', 'H2', 'H3'], 'out_header': ['H', 'H2', 'H3']}]}]})
+    out.append({'id': 'b-fault-ns', 'tns': 'tns.main', 'name': 'App',
+                'types': [{'k': 'fault', 'name': 'OutOfStock', 'ns': 'urn:c07:faultlib'}, {'k': 'fault', 'name': 'Plain'},
+                          {'k': 'fault', 'name': 'Own', 'ns': '#tns'}],
+                'services': [{'name': 'S', 'methods': [
+                    {'fn': 'order', 'params': [['a', U]], 'returns': I, 'throws': ['OutOfStock', 'Plain', 'Own']},
+                    {'fn': 'stock', 'params': [['a', U]], 'returns': I, 'throws': ['Plain']}]}]})
     out.append({'id': 'b-porttypes-1', 'tns': 'tns.main', 'name': 'App', 'types': [], 'services': [
         {'name': 'S', 'port_types': ['P1'], 'methods': [{'fn': 'f', 'params': [['a', U]], 'returns': U, 'port_type': 'P1'}]}]})
     out.append({'id': 'b-porttypes-2', 'tns': 'tns.main', 'name': 'App', 'types': [], 'services': [
@@ -1005,6 +1032,9 @@ def measure_facts():
     doc, _ = parse_wsdl(build_wsdl(build_app(_spec('b-porttypes-2')).app))
     where = dict((pt['name'], [o['name'] for o in pt['ops']]) for pt in doc['portTypes'])
     f['opPortType'] = 'own' if where == {'P1': ['f'], 'P2': ['g']} else ('lastDeclared' if where == {'P1': [], 'P2': ['f', 'g']} else 'other')
+    # --- add_method: namespace of a declared fault that has an explicit __namespace__
+    b = build_app(_spec('b-fault-ns'))
+    f['faultNs'] = {'tns.main': 'forcedTns', 'urn:c07:faultlib': 'keptDeclared'}.get(b.env['OutOfStock'].get_namespace(), 'other')
     f['staticPrefixesClean'] = not any(re.match(r'^s\d+$', p) or p == 'tns' for p in X.NSMAP)
     return f
 
@@ -1016,7 +1046,8 @@ def b_app_deps_factory():
     return b.app.interface.deps.default_factory
 
 
-GOOD = {'importsIter': 'sorted', 'tierTies': 'insertion', 'headerMsgNs': 'tns', 'opPortType': 'own', 'staticPrefixesClean': True}
+GOOD = {'importsIter': 'sorted', 'tierTies': 'insertion', 'headerMsgNs': 'tns', 'opPortType': 'own', 'faultNs': 'forcedTns',
+        'staticPrefixesClean': True}
 WITNESS = {
     'importsIter': ('b-4ns', 'determinism', 'the order of <xs:import> follows the iteration order of a set of namespace strings: '
                     'the WSDL bytes change with PYTHONHASHSEED'),
@@ -1026,6 +1057,8 @@ WITNESS = {
                     'the wsdl:message lives in the target namespace: the QName does not resolve'),
     'opPortType': ('b-porttypes-2', 'ops', 'with several port types every wsdl:operation lands in the last portType; '
                    'the binding of the method\'s own portType has an operation the portType lacks'),
+    'faultNs': ('b-fault-ns', 'closed', 'a declared fault keeps its own __namespace__: wsdl:fault/@message is written with that '
+                'namespace\'s prefix while the wsdl:message is defined in the target namespace'),
     'staticPrefixesClean': ('b-min', 'closed', 'a static prefix collides with generated s<k> prefixes'),
 }
 
@@ -1041,10 +1074,11 @@ def facts07 : Facts07 where
   tierTies := .%s
   headerMsgNs := .%s
   opPortType := .%s
+  faultNs := .%s
   staticPrefixesClean := %s
 
 end SpyneModel.Generated
-''' % (f['importsIter'], f['tierTies'], f['headerMsgNs'], f['opPortType'], 'true' if f['staticPrefixesClean'] else 'false')
+''' % (f['importsIter'], f['tierTies'], f['headerMsgNs'], f['opPortType'], f['faultNs'], 'true' if f['staticPrefixesClean'] else 'false')
 
 
 # ====================================================================================== fresh processes
